@@ -69,3 +69,10 @@ func (s *Sink) UnhandledErrs() []error {
 	defer s.mu.Unlock()
 	return append([]error(nil), s.Unhandled...)
 }
+
+// DroppedList returns the dropped notifications seen so far (their String form).
+func (s *Sink) DroppedList() []string {
+	s.mu.Lock()
+	defer s.mu.Unlock()
+	return append([]string(nil), s.Dropped...)
+}
